@@ -20,7 +20,7 @@ ASSUMPTIONS = ["what a mutator should produce is drift-level (spec/DatasetSM.tla
                "object's accessors with the buckets it reports", "projection is by element name; types are observed "
                "separately (a dataset may legitimately change type when its last non-integer name is removed)"]
 RATES = [(0, 1), (1, 3), (1, 2), (2, 3), (1, 1), (2, 1)]
-NAMINGS = ["ints", "letters", "mixed1", "digits", "mixed3", "collide"]
+NAMINGS = ["ints", "letters", "mixed1", "digits", "mixed3", "collide", "mixedraw", "intish", "neg"]
 
 
 def op_instances(n):
